@@ -200,6 +200,9 @@ def run(chk):
                        f"`{q}` uses the name of a Col (`{norm(a)}`) for the name-keyed lookup `{sink}`: the reference would denote whatever "
                        "column carries that name now (renames, overwriting mutate, joins) instead of the column it was taken from"
                        if allowed is None else f"reviewed by-name site: {allowed}")  # fmt: skip
+    # in the cache layer the *current* name of a column is `uuid_to_name[uid]`; Col objects kept in `cols` carry the
+    # name they were created with (rename does not touch them), so their .name may only label a new Col object
+    n4 += kinds.cache_name_discipline(chk, "R4")
     # positive control (the expected number of unreviewed sites is zero)
     ctl = ast.parse("def f(table, expr):\n    if isinstance(expr, Col):\n        return table[expr.name]\n")
     from ..source import Module as _M  # noqa: F401
